@@ -9,5 +9,7 @@ INVARIANT StoreUnchanged
 INVARIANT NoDeadlock
 INVARIANT WalAtWork
 INVARIANT TxnLockAgree
+INVARIANT NoStaleSideFile
+INVARIANT SidePathsMatch
 INVARIANT NoIdleTransaction
 CHECK_DEADLOCK FALSE
